@@ -7,8 +7,8 @@ from harness.props import c05
 
 ID = 'C17'
 MODULE = 'Gpv.Props.C17'
-MODULES = ['Gpv.Props.C17', 'Gpv.Props.C17Float', 'Gpv.Props.C17FloatVar']
-THEOREMS = core.theorems('C17', 'C17Float', 'C17FloatVar')
+MODULES = ['Gpv.Props.C17', 'Gpv.Props.C17Float', 'Gpv.Props.C17FloatVar', 'Gpv.Props.C17FloatCov']
+THEOREMS = core.theorems('C17', 'C17Float', 'C17FloatVar', 'C17FloatCov')
 RULE = ('RunningMean / RunningVariance / RunningCovariance with lifetimes 1-50 (integers and non-integers >= 1), sequences below, at '
         'and above the lifetime, scalars and arrays, lifetime changed mid-stream; read after every push; model in exact rationals vs '
         'float implementation (rtol 1e-9); oracle: explicit weights (1/n in warm-up, then 1/L, decaying by 1-1/L, first L sharing one '
@@ -19,8 +19,9 @@ PARTIAL = ['floating-point behaviour of the RUNNING MEAN: proved in the standard
            'exact recursion stays below 4*u*l*M/(1-4*u*l), the initial error is forgotten geometrically; rmean_float_warmup: 3*(n+1)*u*M during warm-up; '
            'rmean_float_stationary: a bound independent of the weight is false). The RUNNING VARIANCE likewise (C17FloatVar.rvar_float_error_model: for |x| <= M and 8*l*u <= 1 every '
            'float run stays within 8*l*u*M of the exact mean and 244*l*u*M^2 of the exact running variance — independent of the number of observations; '
-           '_tight, _warmup, _bounded_model, _value_error for the n/(n-1) read-out). The rounding of the weights themselves (1/lifetime, 1/n) and the running '
-           'covariance are not covered: tested against the exact model with a tolerance']
+           '_tight, _warmup, _bounded_model, _value_error for the n/(n-1) read-out). One entry of the RUNNING COVARIANCE too (C17FloatCov.rcov_float_error_model: same constants, '
+           '244*l*u*M^2, independent of n; rcov_diag_strict: it does not literally reduce to the variance on the diagonal). The rounding of the weights themselves '
+           '(1/lifetime, 1/n) is not covered: tested against the exact model with a tolerance']
 ASSUMPTIONS = ['numpy element-wise arithmetic']
 
 
@@ -100,8 +101,49 @@ def default_instances_case(ctx):
             ctx.fail('running-instances-share-configuration', bad, case)
 
 
+def process_history_case(ctx):
+    """what an accumulator computes depends on ITS lifetime, not on which lifetimes other accumulators in the process were given before
+    (equal numbers of another type: float32(10), float16(2.5), Fraction(7), 10)"""
+    import fractions
+    A = acclib.accmod()
+    for other, mine in [(np.float32(10), 10.0), (np.float16(4), 4.0), (fractions.Fraction(7), 7.0), (np.float32(3), 3.0)]:
+        for cls_name in ('RunningMean', 'RunningVariance'):
+            cls = getattr(A, cls_name)
+            try:
+                o = cls(lifetime=other)
+                o.accumulate(1.0)
+                o.accumulate(2.0)
+            except Exception:  # noqa
+                pass                      # (whether such a lifetime is usable is not the point here)
+            a = cls(lifetime=mine)
+            case = dict(process_history=True, cls=cls_name, an_earlier_accumulator_had_lifetime=repr(other), lifetime=mine)
+            ctx.case(('process-history', cls_name, repr(other), mine), True, sample=case)
+            ctx.count('process_history')
+            xs = [0.1 * ((7 * i) % 11) + 1e-3 * i for i in range(3 * int(mine) + 6)]
+            for x in xs:
+                a.accumulate(x)
+            if cls_name == 'RunningMean':
+                w = weights(int(mine), len(xs))
+                want = float(sum(wi * Fraction(x) for wi, x in zip(w, xs)))
+                got = a.value
+            else:
+                ref = cls(lifetime=int(mine))
+                for x in xs:
+                    ref.accumulate(x)
+                want, got = float(ref.rms), a.rms
+            bad = None
+            if type(got) not in (float, np.float64) and not (isinstance(got, np.ndarray) and got.dtype == np.float64):
+                bad = 'the read-out is a %s (%r)' % (type(got).__name__, got)
+            elif abs(float(got) - want) > 1e-12 * max(1.0, abs(want)):
+                bad = 'the read-out is %r, the weights of lifetime %r give %r' % (float(got), mine, want)
+            if bad:
+                ctx.fail('running-depends-on-process-history', '%s(lifetime=%r) after an earlier %s(lifetime=%r) in the same process: %s' % (
+                    cls_name, mine, cls_name, other, bad), case)
+
+
 def check(ctx):
     default_instances_case(ctx)
+    process_history_case(ctx)
     from harness import formulas
     formulas.check_formulas(ctx, ['RunningMean._accumulate_obj'])
     rng = ctx.rng
